@@ -218,6 +218,14 @@ def check_property(prop, tier, seed, replay=None):
                 else:
                     discharged += 1
             discharged += n_gen
+        chk_axioms = None
+        if tier == "thorough" and ok_make and prop.MODULE and not replay:
+            okc, chk_axioms, clog = C.coqchk(prop.MODULE)
+            if okc is None:
+                notes.append(clog)
+                chk_axioms = ["<independent checker timed out: not completed for this module>"]
+            elif not okc:
+                broken.append("coqchk (independent checker) does not accept the development or reports unexpected axioms: %s | %s" % (chk_axioms, clog[-400:]))
         hb_ok, hb_err = C.build_harness("debug")
         if not hb_ok:
             broken.append("harness no longer builds against the crate: " + hb_err[-1500:])
@@ -342,6 +350,7 @@ def check_property(prop, tier, seed, replay=None):
         "translator tools/rs2coq.py (validated every run by bit-exact execution of generated kernels)",
         "correspondence harness (Rust) + driver (Python) for the hand-written skeleton",
         "axioms per theorem (Print Assumptions): " + json.dumps(axioms_seen),
+        "coqchk -o (thorough tier only): " + (json.dumps(chk_axioms) if chk_axioms is not None else "not run in this tier"),
     ]
     ev = dict(
         property_id=pid, tier=tier, seed=seed, level="proof",
